@@ -163,7 +163,10 @@ let () =
     toks := Array.of_list (split_ws line);
     pos := 0;
     if Array.length !toks = 0 then print_endline "" else begin
-      (match peek () with Some "MODE" -> ignore (next ()); ignore (next ()) | _ -> ());
+      let mode = (match peek () with Some "MODE" -> ignore (next ()); next () | _ -> "upd") in
+      (* a caller that swallows vetoes leaves the machine's transaction discipline: not modelled *)
+      if mode = "swl" then toks := [||];
+      if mode = "swl" then print_endline "SKIP" else begin
       (match peek () with Some "WIRING" -> ignore (next ()); ignore (next ()) | _ -> ());
       (match next () with "SCH" -> () | t -> failwith ("expected SCH got " ^ t));
       let ns = next_int () in
@@ -192,4 +195,5 @@ let () =
         Buffer.add_string buf " | "
       done;
       print_endline (Buffer.contents buf)
+      end
     end)
